@@ -187,3 +187,7 @@ mod tests {
         assert_eq!(pool.used(), 0);
     }
 }
+
+#[cfg(kani)]
+#[path = "/verif/kani/arrow-buffer/pool.rs"]
+mod verif_kani;
